@@ -78,6 +78,9 @@ type summary struct {
 	Gw map[*ssa.Global]string
 	R  []*shape
 	CB map[string]cbRec // invocations of function-typed parameters
+	// WS: every distinct first hop ("store" or the callee called from this function) through which a
+	// parameter's memory is written; not propagated to callers, used for per-call-site obligations
+	WS map[wkey]map[string]string
 }
 
 type analyzer struct {
@@ -366,6 +369,15 @@ func (st *fstate) write(target objset, where string) {
 				continue // verified copy-on-write latch: the receiver object is the fresh copy here
 			}
 			k := wkey{o.param, o.level}
+			if st.s.WS == nil {
+				st.s.WS = map[wkey]map[string]string{}
+			}
+			if st.s.WS[k] == nil {
+				st.s.WS[k] = map[string]string{}
+			}
+			if h := firstHop(where); st.s.WS[k][h] == "" {
+				st.s.WS[k][h] = where
+			}
 			if _, ok := st.s.W[k]; !ok {
 				st.s.W[k] = where
 				st.changed = true
@@ -961,6 +973,18 @@ func (st *fstate) applySummary(callee *ssa.Function, argv func(int) objset, func
 }
 
 // chain prepends a call step to a witness, bounded in length.
+// firstHop names the first step of a witness: the callee of "<pos> calls <callee> => …", or "store".
+func firstHop(where string) string {
+	step := where
+	if i := strings.Index(step, " => "); i >= 0 {
+		step = step[:i]
+	}
+	if i := strings.Index(step, " calls "); i >= 0 {
+		return step[i+len(" calls "):]
+	}
+	return "store"
+}
+
 func chain(step, inner string) string {
 	parts := strings.Split(inner, " => ")
 	if len(parts) > 6 {
